@@ -37,6 +37,29 @@ Theorem C15_read_error_is_error : forall crc x st e,
 Proof. exact parse_read_error. Qed.
 Print Assumptions C15_read_error_is_error.
 
+(** HTML is looked for before the first written byte, not on physical line
+    1: whatever lines that write nothing precede it (blank, white space only,
+    comments, a title; \n or \r\n endings) and whatever follows, a line that
+    starts, after white space, with <html or <!doctype in any letter case makes
+    the parse fail with the HTML error, nothing having been written. *)
+Theorem C15_html_after_unwritten_lines : forall crc pre h rest read_err,
+  Forall (fun l => ~ In 10 l /\ lenN l < max_token) (pre ++ [h]) ->
+  Forall (fun l => unwritten (drop_cr l)) pre ->
+  is_html_line (trim_space (drop_cr h)) = true ->
+  exists st, parse crc (flat_map (fun l => l ++ [10]) pre ++ h ++ 10 :: rest) read_err = (st, Some EHtml) /\
+             p_written st = 0 /\ output st = [].
+Proof. exact parse_html_after_unwritten. Qed.
+Print Assumptions C15_html_after_unwritten_lines.
+
+Example C15_html_after_unwritten_lines_satisfiable :
+  let pre := [[13]; [35; 32; 120]; [32; 9; 32]; [33; 32; 84; 105; 116; 108; 101; 58; 32; 80; 13]] in
+  let h := [32; 60; 33; 68; 79; 67; 84; 89; 80; 69; 32; 104; 116; 109; 108; 62; 13] in
+  Forall (fun l => ~ In 10 l /\ lenN l < max_token) (pre ++ [h]) /\
+  Forall (fun l => unwritten (drop_cr l)) pre /\
+  is_html_line (trim_space (drop_cr h)) = true /\
+  snd (parse crc32_update (flat_map (fun l => l ++ [10]) pre ++ h ++ 10 :: [124; 124; 120; 94; 10]) false) = Some EHtml.
+Proof. exact html_after_unwritten_example. Qed.
+
 (** Non-vacuity: a text with a title, comments, CRLF, Unicode spaces, an
     inner CR and an unterminated last line parses, and is changed by it. *)
 Example C15_premises_satisfiable :
@@ -115,6 +138,117 @@ Theorem C15_written_is_normal_form : forall crc l o fs,
                  p_count st' = p_count st /\ p_sum st' = p_sum st).
 Proof. exact update_one_cases. Qed.
 Print Assumptions C15_written_is_normal_form.
+
+(** Such an HTML page is one of the failing sources. *)
+Theorem C15_html_page_fails : forall crc pre h rest read_err,
+  Forall (fun l => ~ In 10 l /\ lenN l < max_token) (pre ++ [h]) ->
+  Forall (fun l => unwritten (drop_cr l)) pre ->
+  is_html_line (trim_space (drop_cr h)) = true ->
+  fails crc (OBody (flat_map (fun l => l ++ [10]) pre ++ h ++ 10 :: rest) read_err).
+Proof. exact html_after_unwritten_fails. Qed.
+Print Assumptions C15_html_page_fails.
+
+(** Whatever the other lists do in a refresh: a list whose source fails or
+    delivers content with the checksum recorded for it keeps its file (same
+    bytes, not replaced: same generation) and its entry (name, rule count,
+    checksum). *)
+Theorem C15_unchanged_list_is_noop : forall crc i b a force due oc st,
+  (forall l, In l (r_block st ++ r_allow st) -> f_id l = i -> no_update crc (oc i) (f_sum l)) ->
+  let st' := refresh crc b a force due oc st in
+  fentry i (r_files st') = fentry i (r_files st) /\
+  (forall k l, nth_error (r_block st) k = Some l -> f_id l = i -> nth_error (r_block st') k = Some l) /\
+  (forall k l, nth_error (r_allow st) k = Some l -> f_id l = i -> nth_error (r_allow st') k = Some l).
+Proof. exact refresh_quiet_list_noop. Qed.
+Print Assumptions C15_unchanged_list_is_noop.
+
+(** The copy-back of name, rule count and checksum keeps the metadata in step
+    with the files: from a state in which list IDs are unique, every enabled
+    list's rule count and checksum are those of its stored file (zero without
+    a file) and every disabled list is unloaded, every history of refreshes
+    (block / allow, forced / scheduled, any sources, failing renames included)
+    and of set_url calls that rename, enable or disable a list leads to such a
+    state again. *)
+Theorem C15_metadata_in_step : forall crc hs st, wf crc st -> wf crc (run_hist crc hs st).
+Proof. exact history_wf. Qed.
+Print Assumptions C15_metadata_in_step.
+
+(** ... so after any history the rule count and the checksum of an enabled
+    list are those of re-parsing its stored file, which reproduces the file. *)
+Theorem C15_metadata_describe_file : forall crc hs st l c,
+  wf crc st -> let st' := run_hist crc hs st in
+  In l (r_block st' ++ r_allow st') -> f_enabled l = true -> fget (f_id l) (r_files st') = Some c ->
+  describes crc (f_count l) (f_sum l) c.
+Proof. exact history_meta_matches_file. Qed.
+Print Assumptions C15_metadata_describe_file.
+
+(** ... and a source that delivers what is stored, in any spelling with the
+    same normal form, does not make the file be replaced (A, A and the return
+    B, A alike: only the stored file counts). *)
+Theorem C15_stored_content_not_rewritten : forall crc b a force due oc st l c d re pst,
+  wf crc st -> In l (r_block st ++ r_allow st) -> f_enabled l = true ->
+  fget (f_id l) (r_files st) = Some c ->
+  oc (f_id l) = OBody d re -> parse crc d re = (pst, None) -> output pst = c ->
+  let st' := refresh crc b a force due oc st in
+  fentry (f_id l) (r_files st') = fentry (f_id l) (r_files st) /\
+  In l (r_block st' ++ r_allow st').
+Proof. exact stored_content_not_rewritten. Qed.
+Print Assumptions C15_stored_content_not_rewritten.
+
+(** Enabling a disabled (unloaded) list through set_url, its source delivering
+    a list text: no error, the engine is rebuilt from the files and what is in
+    force for the list is the normal form of that text, also when the bytes are
+    those stored before it was disabled; a text without rules (checksum of an
+    unloaded list) leaves nothing stored and nothing in force. *)
+Theorem C15_enable_puts_rules_in_force : forall crc allow i name d re pst st pre f post,
+  arr allow st = pre ++ f :: post -> Forall (other_id i) pre -> f_id f = i ->
+  f_enabled f = false -> f_sum f = 0 ->
+  parse crc d re = (pst, None) ->
+  let '(rs, er, st') := set_props crc allow i name true (OBody d re) st in
+  er = false /\ rs = true /\ engine_consistent st' /\
+  lookup i (eng_arr allow (r_engine st')) = (if p_sum pst =? 0 then None else Some (output pst)) /\
+  fget i (r_files st') = (if p_sum pst =? 0 then None else Some (output pst)).
+Proof. exact enable_puts_rules_in_force. Qed.
+Print Assumptions C15_enable_puts_rules_in_force.
+
+(** Disabling an enabled list: the engine is rebuilt without it, its file
+    stays, its entry is unloaded (rule count and checksum zero). *)
+Theorem C15_disable_takes_rules_out : forall crc allow i name o st pre f post,
+  arr allow st = pre ++ f :: post -> Forall (other_id i) pre -> Forall (other_id i) post -> f_id f = i ->
+  f_enabled f = true ->
+  let '(rs, er, st') := set_props crc allow i name false o st in
+  er = false /\ rs = true /\ engine_consistent st' /\
+  lookup i (eng_arr allow (r_engine st')) = None /\ r_files st' = r_files st /\
+  arr allow st' = pre ++ {| f_id := i; f_enabled := false; f_name := name; f_count := 0; f_sum := 0 |} :: post.
+Proof. exact disable_takes_rules_out. Qed.
+Print Assumptions C15_disable_takes_rules_out.
+
+(** Enabling with a failing source: an error, and nothing changes (files,
+    entries, engine). *)
+Theorem C15_failed_enable_is_noop : forall crc allow i name o st pre f post,
+  arr allow st = pre ++ f :: post -> Forall (other_id i) pre -> f_id f = i ->
+  f_enabled f = false -> fails crc o ->
+  set_props crc allow i name true o st = (false, true, st).
+Proof. exact failed_enable_is_noop. Qed.
+Print Assumptions C15_failed_enable_is_noop.
+
+(** Non-vacuity for the last six: a well-formed state with a stored list;
+    disabling takes its rule out of force and unloads it, enabling it again
+    with the same bytes puts the rule back (the file is replaced once more),
+    enabling with an HTML page changes nothing. *)
+Example C15_history_premises_satisfiable : wf crc32_update RExamples.st0 /\ wf crc32_update RExamples.st1.
+Proof. exact wf_example. Qed.
+
+Example C15_enable_disable_satisfiable :
+  verdict (r_engine RExamples.st1) [112;49] = 2 /\
+  lookup 1 (e_block (r_engine RExamples.st1)) = Some RExamples.good /\
+  lookup 1 (e_block (r_engine SetExamples.st_off)) = None /\
+  map f_sum (r_block SetExamples.st_off) = [0] /\
+  fentry 1 (r_files SetExamples.st_off) = Some (1, RExamples.good) /\
+  lookup 1 (e_block (r_engine SetExamples.st_on)) = Some RExamples.good /\
+  fentry 1 (r_files SetExamples.st_on) = Some (2, RExamples.good) /\
+  set_props crc32_update false 1 [120] true (OBody RExamples.html false) SetExamples.st_off
+    = (false, true, SetExamples.st_off).
+Proof. exact set_example. Qed.
 
 (** Non-vacuity: a successful refresh of a block and an allow list, then one
     where an HTML page and a connection error fail both: state unchanged. *)
